@@ -81,6 +81,10 @@ func (vm *varyMatcher) varyHeadersMatchOne(entry *ResponseRef, reqHeader http.He
 			// NOTE: The policy of this cache is to use just the first header line
 			reqValue = vm.hvn.NormalizeHeaderValue(field, reqValues[0])
 		}
+		if len(reqValues) > 1 {
+			// RFC 9111 §4.1: several field lines are combined before comparison.
+			reqValue = vm.hvn.NormalizeHeaderValue(field, strings.Join(reqValues, ", "))
+		}
 		if reqValue != value {
 			return false
 		}
